@@ -82,6 +82,9 @@ def correspond(ctx, scale):
         L.append(('rlfq', lambda: ResidualLFQ(dim=5, codebook_size=8, num_quantizers=2), 5, None))
         # without projections: these accept half / bfloat16 inputs (mixed-precision histories must not touch the non-learned buffers either)
         L.append(('rfsq', lambda: ResidualFSQ(levels=[8, 5, 5, 3], num_quantizers=3, dim=4), 4, None))
+        L.append(('rfsq', lambda: ResidualFSQ(levels=[4, 3], num_quantizers=3, dim=2, quantize_dropout=True), 2, None))
+        L.append(('rlfq', lambda: ResidualLFQ(dim=3, codebook_size=8, num_quantizers=3, quantize_dropout=True), 3, None))
+        L.append(('rsimvq', lambda: ResidualSimVQ(dim=4, num_quantizers=3, codebook_size=6, quantize_dropout=True), 4, None))
         L.append(('fsq', lambda: FSQ([8, 5, 3]), 3, None))
         L.append(('lfq', lambda: LFQ(codebook_size=8, dim=3), 3, None))
         return L
@@ -101,12 +104,30 @@ def correspond(ctx, scale):
             eff0 = mod.codebook.detach().clone() if kind == 'simvq' else None
             stepped = False
             for oi in range(rng.choice([6, 10, 16])):
-                op = rng.choice(['train_fwd', 'eval_fwd', 'backward', 'opt', 'fixed'] + (['loss_fwd', 'loss_fwd'] if kind == 'rpq' else []) + (['lowp_fwd', 'lowp_fwd'] if not params else []))
+                op = rng.choice(['train_fwd', 'eval_fwd', 'backward', 'opt', 'fixed'] + (['loss_fwd', 'loss_fwd'] if kind == 'rpq' else []) + (['lowp_fwd', 'lowp_fwd'] if not params else [])
+                                + (['decode', 'decode_coarse'] if kind in ('rfsq', 'rlfq', 'rsimvq', 'fsq', 'lfq', 'simvq') else []))
                 if kind == 'rpq' and oi == 0 and rep % 2 == 0:
                     op = 'loss_fwd'            # the loss path as the very first call of a fresh module
                 trace.append(op)
                 evaluations += 1
                 try:
+                    if op in ('decode', 'decode_coarse'):
+                        # decoding (all layers, or a coarse prefix of the residual layers) only reads the non-learned tensors
+                        mod.eval()
+                        with torch.no_grad():
+                            r_ = mod(torch.randn(2, 5, dim))
+                            ix = r_[1] if isinstance(r_, tuple) else getattr(r_, 'indices', None)
+                            if ix is not None:
+                                try:
+                                    if hasattr(mod, 'get_output_from_indices'):
+                                        k_ = ix.shape[-1] if op == 'decode' else max(1, ix.shape[-1] - 1 - (oi % 2))
+                                        mod.get_output_from_indices(ix[..., :k_])
+                                        mod.get_codes_from_indices(ix[..., :k_])
+                                    elif hasattr(mod, 'indices_to_codes'):
+                                        mod.indices_to_codes(ix)
+                                    dist['decode_ops'] = dist.get('decode_ops', 0) + 1
+                                except (AssertionError, RuntimeError, TypeError):
+                                    pass
                     if op == 'lowp_fwd':
                         # a low-precision call (autocast-style): legal for the projection-free scalar quantizers; a dtype error is not our subject
                         mod.train(rng.random() < 0.5)
